@@ -59,6 +59,8 @@ const (
 	kfC04ParquetNilDeref  = "C04-parquet-import-nil-deref"
 	kfC04MsgpackNilKey    = "C04-msgpack-nil-map-key-panic"
 	kfC04ZeroRowBatch     = "C04-zero-row-batch-poisons-flush"
+	kfC04NilKeyDiscard    = "C04-msgpack-nil-key-in-unused-value-panic"
+	kfC04ParquetFooter    = "C04-parquet-import-footer-panic"
 )
 
 const c04BaseMicros = int64(1_700_000_000_000_000)
@@ -1476,6 +1478,10 @@ func c04RunSeq(s *c04Seq) *c04Failure {
 			switch {
 			case strings.Contains(r.Path, "/import/parquet") && strings.Contains(se, "pqarrow.(*FileReader)"):
 				tolerated = kfC04ParquetNilDeref
+			case strings.Contains(r.Path, "/import/parquet") && strings.Contains(se, "parquet/file.(*Reader).parseMetaData"):
+				tolerated = kfC04ParquetFooter // arrow-go panics while opening the file (footer), before ReadTable
+			case strings.Contains(r.Path, "/write/msgpack") && strings.Contains(se, "msgpack/v6.(*Decoder).decodeTypedMapN") && strings.Contains(se, "discardValueTyped"):
+				tolerated = kfC04NilKeyDiscard // the typed fast path decoding a value it does not use
 			case strings.Contains(r.Path, "/write/msgpack") && strings.Contains(se, "msgpack/v6.(*Decoder).decodeTypedMapN"):
 				tolerated = kfC04MsgpackNilKey
 			}
@@ -2190,4 +2196,54 @@ func TestVerifKF_C04_zero_row_batch_poisons_flush(t *testing.T) {
 		t.Logf("statuses=%v deltas=%v rows=%d", res.statuses, res.deltas, res.rows)
 	}
 	verifkit.KnownFinding(kfC04ZeroRowBatch, rep, what)
+}
+
+// Minimal input: a valid columnar payload with one extra top-level key whose value
+// is a map with a nil key: {m:cpu, columns:{time:[t], v:[1]}, x:{nil:1}}. The typed
+// fast path decodes the unused value with DecodeInterface (discardValueTyped), which
+// is not covered by the recover that protects the generic path's Unmarshal.
+func TestVerifKF_C04_msgpack_nil_key_unused_value(t *testing.T) {
+	body := mpEncode(nil, mpMap{{"m", "cpu"}, {"columns", mpMap{{"time", []any{c04BaseMicros}}, {"v", []any{int64(1)}}}}, {"x", mpRaw{0x81, 0xc0, 0x01}}})
+	r := &c04Req{Method: "POST", Path: "/api/v1/write/msgpack", Body: body}
+	res, err := c04Play(c04ServerCfg{MaxBufferSize: 100}, []*c04Req{r}, false)
+	rep := false
+	what := fmt.Sprintf("POST /api/v1/write/msgpack body %x ({m:cpu,columns:{time:[t],v:[1]},x:{nil:1}}) -> nil pointer dereference in the msgpack library under ingest.discardValueTyped, recovered as 500", body)
+	if err != nil {
+		t.Logf("play: %v", err)
+	} else {
+		rep = len(res.panics) > 0 && strings.Contains(res.panics[0], "nil pointer dereference") && strings.Contains(res.panics[0], "discardValueTyped")
+		t.Logf("statuses=%v panics=%v crashed=%v", res.statuses, res.panics, res.crashed)
+	}
+	verifkit.KnownFinding(kfC04NilKeyDiscard, rep, what)
+}
+
+// Minimal input candidates: a Parquet file whose footer decodes to a FileMetaData
+// without a schema. arrow-go's file.NewParquetReader (parseMetaData ->
+// NewFileMetaData -> initColumnOrders -> Schema.NumColumns) dereferences nil; that
+// call sits outside the recover that fix 3c1509e put around ReadTable.
+const c04BadFooterParquetB64 = "UEFSMRUEFWgVaEwVBBUAEgAAFAAAADIwMjMtMTEtMTRUMjI6MTM6MjBaGAAAADIwMjMtMTEtMTRUMjI6MTM6MjAuMDAxWhUAFRIVEiwVBBUQFQYVBhw2ABYAGBQyMDIzLTExLTE0VDIyOjEzOjIwWhgYMjAyMy0xMS0xNFQyMjoxMzoyMC4wMDFaAAAAAgAAAAQBAQMCFQQVIBUgTBUEFQASAAAAAAAAAAAAAAEAAAAAAAAAFQAVHhUeLBUEFRAVBhUGHBgIAQAAAAAAAAAYCAAAAAAAAAAAFgAWABgIAQAAAAAAAAAYCAAAAAAAAAAAAAAAAgAAAAQAAgAAAAQDAQMCFQQVIBUgTBUEFQASAAAAAAAAAAAAAAEAAAAAAAAAFQAVHhUeLBUEFRAVBhUGHBgIAQAAAAAAAAAYCAAAAAAAAAAAFgAWABgIAQAAAAAAAAAYCAAAAAAAAAAAAAAAAgAAAAQAAgAAAAQDAQMCFQQVEBUQTBUCFQASAAAAAAAAAAAAABUAFRIVEiwVBBUQFQYVBhwYCAAAAAAAAAAAGAgAAAAAAAAAABYCFgAYCAAAAAAAAAAAGAgAAAAAAAAAAAAAAAIAAAADAQECABUEFSAVIEwVBBUAEgAAAGjlz4sBAAABaOXPiwEAABUAFRIVEiwVBBUQFQYVBhwYCAFo5c+LAQAAGAgAaOXPiwEAABYAFgAYCAFo5c+LAQAAGAgAaOXPiwEAAAAAAAIAAAAEAQEDAhUEGaxIBnNjaGVtYRUKABQMJQIYBHRpbWUlAEwcAAAANQIYA2EgYhUCFQZMPAAAADUEGARsaXN0FQIAFQQlAhgHZWxlbWVudCUkTKwTQBEAAAA1AhgDYSxiFQIVBkw8AAAANQQYBGxpc3QVAgAVBCUCGAdlbGVtZW50JSRMrBNAEQAAABUEJQIYAXclJEysE0ARAAAAFQQlAhgJX2RhdGFiYXNlJRJMjBIcHAAAAAAAFgQZHBlcJgAcFQwZNRAABhkYBHRpbWUVABYEFqQCFqQCJowBJggcNgAWABgUMjAyMy0xMS0xNFQyMjoxMzoyMFoYGDIwMjMtMTEtMTRUMjI6MTM6MjAuMDAxWgAZLBUEFQAVAgAVABUQFQIAAAAmABwVBBk1EAAGGTgDYSBiBGxpc3QHZWxlbWVudBUAFgQW2AEW2AEm6AImrAIcGAgBAAAAAAAAABgIAAAAAAAAAAAWABYAGAgBAAAAAAAAABgIAAAAAAAAAAAAGSwVBBUAFQIAFQAVEBUCAAAAJgAcFQQZNRAABhk4A2EsYgRsaXN0B2VsZW1lbnQVABYEFtgBFtgBJsAEJoQEHBgIAQAAAAAAAAAYCAAAAAAAAAAAFgAWABgIAQAAAAAAAAAYCAAAAAAAAAAAABksFQQVABUCABUAFRAVAgAAACYAHBUEGTUQAAYZGAF3FQAWBBa8ARa8ASaIBibcBRwYCAAAAAAAAAAAGAgAAAAAAAAAABYCFgAYCAAAAAAAAAAAGAgAAAAAAAAAAAAZLBUEFQAVAgAVABUQFQIAAAAmABwVBBk1EAAGGRgJX2RhdGFiYXNlFQAWBBbMARbMASbUByaYBxwYCAFo5c+LAQAAGAgAaOXPiwEAABYAFgAYCAFo5c+LAQAAGAgAaOXPiwEAAAAZLBUEFQAVAgAVABUQFQIAAAAW3AgWBCYIFtwIFAAAGQwYGXBhcnF1ZXQtZ28gdmVyc2lvbiAxOC42LjAZXBwAABwAABwAABwAABwAAAD4AgAAUEFSMQ=="
+
+func TestVerifKF_C04_parquet_import_footer_panic(t *testing.T) {
+	big, err := base64.StdEncoding.DecodeString(c04BadFooterParquetB64)
+	if err != nil {
+		t.Fatalf("b64: %v", err)
+	}
+	small := append(append([]byte("PAR1"), 0x00, 0x01, 0x00, 0x00, 0x00), []byte("PAR1")...) // empty thrift struct as footer
+	rep := false
+	what := ""
+	for _, file := range [][]byte{small, big} {
+		r := &c04Req{Method: "POST", Path: "/api/v1/import/parquet?db=default&measurement=cpu"}
+		c04Multipart(r, "data.parquet", file)
+		res, err := c04Play(c04ServerCfg{MaxBufferSize: 100}, []*c04Req{r}, false)
+		if err != nil {
+			t.Logf("play: %v", err)
+			continue
+		}
+		t.Logf("file %d bytes: statuses=%v panics=%v crashed=%v", len(file), res.statuses, res.panics, res.crashed)
+		if !rep && len(res.panics) > 0 && strings.Contains(res.panics[0], "parseMetaData") {
+			rep = true
+			what = fmt.Sprintf("POST /api/v1/import/parquet with a %d-byte file (hex %x...) -> nil pointer dereference in arrow-go file.(*Reader).parseMetaData (file.NewParquetReader, outside the recover around ReadTable), recovered as 500", len(file), file[:min(len(file), 13)])
+		}
+	}
+	verifkit.KnownFinding(kfC04ParquetFooter, rep, what)
 }
